@@ -20,7 +20,8 @@
 (*     without reply before the timeout, the Result carries succeeded,        *)
 (*     failed and excess power.                                               *)
 (* The glue is new: the k-th Request the manager sends is request id k of the *)
-(* distributor (reqs[k] = its power), the Result of a distribution travels on *)
+(* distributor (PowerManager's history variable reqs: reqs[k] = its power),   *)
+(* the Result of a distribution travels on                                    *)
 (* the results channel rq to the manager's Result handler, the component data *)
 (* (comp) changes first and the pool streams the new bounds to the manager    *)
 (* afterwards, so a request may be distributed under bounds the manager has   *)
@@ -48,7 +49,8 @@ CONSTANTS NInv,       \* inverters of the pool = set_power calls per distributio
           Unit, Tol
 
 VARIABLES chan, infl, pend, nsent, lastSent, lastRecv, lastEntered, nrun,   \* PowerDistributor.tla
-          reqs,      \* reqs[k] = power of the k-th Request the manager sent (model units)
+          \* (reqs is PowerManager's: reqs[k] = power of the k-th Request the manager sent, model units,
+          \*  appended by its Handle; request id k of the distributor is its index in reqs)
           comp,      \* [lo, hi]: component bounds the component manager distributes under
           cur,       \* the distribution in progress (NoCur: none)
           rq,        \* results channel distributor -> manager
@@ -59,7 +61,7 @@ PD == INSTANCE PowerDistributor WITH Groups <- {1}, MaxReq <- MaxReqs, h <- <<>>
 
 pmv == <<R, O, sys, clock, lastPartial, last, rep>>
 pdv == <<chan, infl, pend, nsent, lastSent, lastRecv, lastEntered, nrun>>
-gluev == <<reqs, comp, cur, rq, cmd, cnt>>
+gluev == <<reqs, comp, cur, rq, cmd, cnt>>      \* reqs: declared in PowerManager, kept whole in the view here
 ppvars == <<pmv, pdv, gluev, h>>
 PPView == <<pmv, pdv, gluev>>
 PPViewD == <<pmv, pdv, gluev, Len(h)>>
@@ -127,11 +129,12 @@ KindOf(t) == IF t = "Success" THEN "success" ELSE IF t = "PartialFailure" THEN "
 ----------------------------------------------------------------------------
 (* composed actions (without history) *)
 
-\* the manager's handler has run: a Request it sent is the distributor's next request id
+\* the manager's handler has run (it appended what it sent to reqs): a Request it sent is the
+\* distributor's next request id
 SendGlue ==
     IF last'.sent # None
-    THEN /\ PD!Send(1) /\ reqs' = Append(reqs, last'.sent)
-    ELSE UNCHANGED <<pdv, reqs>>
+    THEN PD!Send(1)
+    ELSE UNCHANGED pdv
 
 PReg(q) == /\ sys.has /\ RegProposal(q) /\ SendGlue
            /\ cnt' = [cnt EXCEPT !.prop = @ + 1] /\ UNCHANGED <<comp, cur, rq, cmd>>
@@ -139,9 +142,11 @@ POp(q) == /\ sys.has /\ OpProposal(q) /\ SendGlue
           /\ cnt' = [cnt EXCEPT !.prop = @ + 1] /\ UNCHANGED <<comp, cur, rq, cmd>>
 \* the pool streams bounds s to the manager's bounds tracker
 PBounds(s) == /\ BoundsUpdate(s) /\ SendGlue /\ UNCHANGED <<comp, cur, rq, cmd, cnt>>
-\* the manager takes the next Result from the results channel
-PGot == /\ rq # <<>>
-        /\ Result(KindOf(Head(rq).type)) /\ SendGlue
+\* the manager takes the next Result from the results channel; it answers request Head(rq).k, which
+\* was sent Len(reqs) - k requests before the latest one (late results: the targets may have moved on)
+BackOf(k) == Len(reqs) - k
+PGot == /\ rq # <<>> /\ Answerable(BackOf(Head(rq).k))
+        /\ Result(KindOf(Head(rq).type), BackOf(Head(rq).k)) /\ SendGlue
         /\ rq' = Tail(rq) /\ UNCHANGED <<comp, cur, cmd, cnt>>
 
 \* new component data reaches the component manager's caches
